@@ -72,6 +72,19 @@ class K(object):
     def me(self, {outer}*args, **kwargs): return self.inner(1, *args, **kwargs)
 obj = K()
 ''', ['obj.m', 'K.m', 'obj.me', 'K.me']),
+    _mk('forger_method_ivar', '''
+def inner({inner}): return 'inner'
+def other(p, q=2): return 'other'
+class K(object):
+    def __init__(self, target):
+        self.target = target
+    @specifiers.forwards_to_method('target', emulate=True)
+    def me(self, {outer}*args, **kwargs): return self.target(*args, **kwargs)
+    @specifiers.forwards_to_method('target')
+    def m(self, {outer}*args, **kwargs): return self.target(*args, **kwargs)
+obj = K(inner)
+obj2 = K(other)
+''', ['obj.me', 'obj2.me', 'obj.m', 'obj2.m']),
     _mk('forger_super', '''
 class Base(object):
     def m(self, {inner}): return 'inner'
